@@ -65,17 +65,26 @@ pub fn minimize(src: &str, key: &dyn Fn(&str) -> Option<String>) -> String {
         }
     };
     let mut parts = split(src);
-    let mut budget = 4000usize;
+    // work budget in tokens re-processed (a candidate of a 16 000-token scaling family costs 16 000): long inputs get
+    // the coarse windows (halves, quarters, ...) first, which shrink them in a logarithmic number of candidates
+    let mut budget = 4_000_000usize;
     loop {
         let mut changed = false;
+        let mut windows: Vec<usize> = vec![];
+        let mut w0 = parts.len() / 2;
+        while w0 > 6 {
+            windows.push(w0);
+            w0 /= 2;
+        }
         // windows of 1..6 tokens (pairs of brackets, operator + operand, ...), larger first
-        for w in [6usize, 4, 3, 2, 1] {
+        windows.extend([6usize, 4, 3, 2, 1]);
+        for w in windows {
             let mut i = 0;
             while i + w <= parts.len() && budget > 0 {
                 let mut cand = parts.clone();
                 cand.drain(i..i + w);
                 let s: String = cand.concat();
-                budget -= 1;
+                budget = budget.saturating_sub(parts.len().max(1000));
                 if key(&s).as_deref() == Some(want.as_str()) {
                     parts = split(&s);
                     changed = true;
@@ -854,7 +863,7 @@ pub const FIXED: [&str; 27] = [
     "(1..3) ~# (1 2)",
 ];
 
-pub const BOUNDARY_LITS: [&str; 57] = [
+pub const BOUNDARY_LITS: [&str; 59] = [
     "2147483647",
     "2147483648",
     "0",
@@ -913,6 +922,8 @@ pub const BOUNDARY_LITS: [&str; 57] = [
     "(1 <> (2 3) <> \"ab\")",
     "(,)",
     "\"\"",
+    ":héllo",
+    "(:名前 = 1, :b = \"é\")",
 ];
 
 pub const BOUNDARY_OPS: [&str; 36] = [
